@@ -10,7 +10,7 @@ EXPLANATION = ("Static MIR rules on ArchiveWriter: (R09.1) in every function rea
                "proved dead by a recorded invariant are tabled in tables/writer_dead_refusals.json; (R09.2) every effect of the five methods is dominated by a "
                "state test taking the OpenedFiles edge; (R09.3) the count returned by io::copy(take(src, length), dest) in ArchiveFileBlock::dump is "
                "compared with length and the unequal edge returns Err; (R09.4) StreamWriter::write and every call of mlar into the ArchiveWriter propagate the writer's "
-               "error (variant-tracked paths); R09.2 also requires every Ok result of the entry points behind the state test and, for per-file methods, the id-membership tests. A caller-side test discharges a callee refusal (D2) only when both measure the same quantity (len() vs chars().count() differ); HashMap::entry is a lookup, consuming the Entry is the effect. Equality of the final archive with the one built without the refused calls is runtime and not decided.")
+               "error (variant-tracked paths); R09.2 also requires every Ok result of the entry points behind the state test and, for per-file methods, the id-membership tests. A caller-side test discharges a callee refusal (D2) only when both measure the same quantity (len() vs chars().count() differ); HashMap::entry is a lookup, consuming the Entry is the effect. (R09.5) on every path of start_file / append_file_content / end_file to a block write, current_id was compared equal to the block's file or is stored (so the next block of another file opens a run and stays readable); (R09.6) = R20.7: no adaptor discards an error of the destination, so calls that all returned Ok did write the archive. Equality of the final archive with the one built without the refused calls is runtime and not decided.")
 TRUSTED = ['rustc MIR', 'std collections: get/contains/get_mut do not modify the map']
 ASSUMPTIONS = ['I/O errors from the destination are not refusals (they may follow effects)']
 
